@@ -346,6 +346,85 @@ def global_obs(case):
 FLOOR = 1e-2     # the local field scale is max(|F_ref|, FLOOR * class scale estimate)
 
 
+_CS_SEEN = []
+_CS_PATCHED = [False]
+
+
+def _instrument():
+    """record the special-case ids that magnet_cylinder_segment_Hfield dispatches on (harness side:
+    the module attribute determine_cases is wrapped in THIS process; /repo is not touched)"""
+    if _CS_PATCHED[0]:
+        return
+    import magpylib._src.fields.field_BH_cylinder_segment as m
+    orig = m.determine_cases
+
+    def wrapped(*a, **k):
+        res = orig(*a, **k)
+        _CS_SEEN.extend(int(v) for v in np.unique(res))
+        return res
+    m.determine_cases = wrapped
+    _CS_PATCHED[0] = True
+
+
+CS_CASES = [112, 113, 115, 122, 123, 124, 125, 132, 133, 134, 135,
+            211, 212, 213, 214, 215, 221, 222, 223, 224, 225, 231, 232, 233, 234, 235]
+
+
+def polyline_masks(case, o):
+    """which exit of current_polyline_Hfield each segment takes (own replica of the mask logic)"""
+    V = np.asarray(case["params"]["vertices"], float)
+    out = set()
+    for a, b in zip(V[:-1], V[1:]):
+        if np.all(a == b):
+            out.add("zero-length")
+            continue
+        L = np.linalg.norm(a - b)
+        q1, q2, qo = a / L, b / L, o / L
+        t = (qo - q1) @ (q1 - q2)
+        q4 = q1 + t * (q1 - q2)
+        if np.linalg.norm(qo - q4) < 1e-15:
+            out.add("on-line")
+            continue
+        n41, n42 = np.linalg.norm(q4 - q1), np.linalg.norm(q4 - q2)
+        out.add("mask2" if (n41 > 1 and n41 > n42) else "mask3" if (n42 > 1 and n42 > n41) else "mask4")
+    return out
+
+
+def branches(case, ol, inside, seen_cs):
+    """names of the formula branches this evaluation went through (for the coverage accounting)"""
+    c, p = case["cls"], case["params"]
+    side = "inside" if inside else "outside"
+    out = [f"{c}:{side}"]
+    if c == "Cuboid":
+        out.append(f"Cuboid:octant:{'-' if ol[0] < 0 else '+'}{'+' if ol[1] > 0 else '-'}{'+' if ol[2] > 0 else '-'}:{side}")
+    if c in ("Cylinder", "CylinderSegment"):
+        pol = p["polarization"]
+        out.append(f"{c}:pol:{'tv' if (pol[0] != 0 or pol[1] != 0) else ''}{'ax' if pol[2] != 0 else ''}")
+    if c == "Cylinder":
+        r = math.hypot(ol[0], ol[1]) / (p["dimension"][0] / 2)
+        out.append(f"Cylinder:{'small_r' if r < 0.05 else 'general_r'}:{side}")
+    if c == "CylinderSegment":
+        if p["dimension"][4] - p["dimension"][3] >= 360:
+            out.append("CylinderSegment:full360:" + ("solid" if p["dimension"][0] == 0 else "ring"))
+        else:
+            out += [f"CylinderSegment:case{k}" for k in sorted(set(seen_cs))]
+            if p["dimension"][3] < -180:
+                out.append("CylinderSegment:phi1<-180:" + side)
+    if c == "Circle":
+        out.append("Circle:" + ("on-axis" if ol[0] == 0 and ol[1] == 0 else "general"))
+    if c == "Polyline":
+        out += ["Polyline:" + m for m in sorted(polyline_masks(case, ol))]
+    if c in ("Triangle", "Tetrahedron", "TriangularMesh"):
+        T = body_tris(case)
+        s = size_of(case)
+        for A, B, C in T:
+            n = np.cross(B - A, C - A)
+            if abs((ol - A) @ n) / np.linalg.norm(n) < 1e-9 * s:
+                out.append(f"{c}:in-face-plane")
+                break
+    return out
+
+
 def evaluate(case):
     """returns dict(status = ok | skipped | fail | error, rel errors, ...)"""
     import warnings
@@ -380,12 +459,19 @@ def evaluate(case):
             return {"status": "skipped", "why": "reference quadrature not converged", "evals": ev}
         Href, Bref = M @ Href, M @ Bref
         src = build(case)
+        _instrument()
+        del _CS_SEEN[:]
         B = np.asarray(src.getB(og), float)
         H = np.asarray(src.getH(og), float)
+        seen_cs = list(_CS_SEEN)
     except Exception as e:   # pylint: disable=broad-except
         import traceback
         return {"status": "error", "why": f"{type(e).__name__}: {e}", "trace": traceback.format_exc()[-1500:]}
     out = {"status": "ok", "inside": bool(inside), "dist_rel": dist / s, "evals": ev}
+    try:
+        out["branches"] = branches(case, ol, inside, seen_cs)
+    except Exception as e:   # pylint: disable=broad-except
+        out["branches"] = [f"{case['cls']}:branch-accounting-failed:{type(e).__name__}"]
     if "polarization" in case["params"] and np.all(np.isfinite(B)) and np.all(np.isfinite(H)):
         Jg = M @ np.asarray(case["params"]["polarization"], float)
         dJ = B - Q.MU0 * H
@@ -584,7 +670,7 @@ def _surface_point(rng, case):
 KINDS = {
     "Cuboid": ["near", "near", "mid", "far", "inside", "edge-ext", "plane"],
     "Cylinder": ["near", "near", "mid", "far", "inside", "axis", "axis", "plane"],
-    "CylinderSegment": ["near", "near", "mid", "far", "inside", "axis", "plane"],
+    "CylinderSegment": ["near", "near", "mid", "far", "inside", "axis", "plane", "aligned", "aligned"],
     "Sphere": ["near", "mid", "far", "inside"],
     "Tetrahedron": ["near", "near", "mid", "far", "inside", "edge-ext", "plane"],
     "TriangularMesh": ["near", "near", "mid", "far", "inside", "edge-ext", "plane"],
@@ -652,6 +738,28 @@ def gen_observer(rng, case, kind):
         if kind == "edge-ext-exact" or rng.random() < 0.5:
             return q                                                # (rounded) on the extension line
         return q + _unit(rng) * np.linalg.norm(q - b) * _logu(rng, 1e-12, 1e-2)
+    if kind == "aligned":       # CylinderSegment: on the planes / cylinders / axis that carry its faces (special cases 1xx, x1x, x2x, xx1..xx4)
+        r1, r2, h, a1, a2 = p["dimension"]
+        zc = rng.choice(["base", "base", "free"])
+        pc = rng.choice(["side", "side", "opp", "free"])
+        rc = rng.choice(["axis", "r1", "r2", "free", "free"])
+        if rc == "axis" and a2 - a1 < 360 and rng.random() < 0.7:
+            # on the axis numpy's arctan2(0, 0) = 0 is the observer azimuth: the cases x1y / x2y (y = 1, 2) need a
+            # side plane at azimuth 0 or 180 deg and an exactly vanishing radius (no pose rounding)
+            span = a2 - a1
+            a1 = rng.choice([0.0, -180.0, 180.0 - span, -span])
+            a2 = a1 + span
+            if -360.0 <= a1 and a2 <= 360.0 and a2 - a1 < 360.0:
+                if rng.random() < 0.5:
+                    r1 = 0.0               # y = 1: r = r_i = 0
+                p["dimension"] = [r1, r2, h, a1, a2]
+                case["pos"], case["rotvec"] = [0.0, 0.0, 0.0], [0.0, 0.0, 0.0]
+            else:
+                a1, a2 = p["dimension"][3], p["dimension"][4]
+        z = rng.choice([-1, 1]) * h / 2 if zc == "base" else rng.choice([-1, 1]) * h * _logu(rng, 0.01, 5.0)
+        ph = math.radians(rng.choice([a1, a2])) + (math.pi if pc == "opp" else 0.0) if pc != "free" else rng.uniform(-math.pi, math.pi)
+        r = 0.0 if rc == "axis" else r1 if rc == "r1" else r2 if rc == "r2" else r2 * _logu(rng, 0.05, 5.0)
+        return np.array([r * math.cos(ph), r * math.sin(ph), z])
     if kind == "plane":         # in the plane of a face, beyond its rim
         if c == "Cuboid":
             h = np.abs(np.asarray(p["dimension"], float)) / 2
@@ -785,6 +893,13 @@ def tolerance(case):
         tol = 1e-3 + 3e-4 * x
     elif c in ("Cuboid", "Cylinder"):
         tol += 1e4 * EPS * x ** 3
+        if c == "Cylinder":
+            # `close the z-axis in cylindrical symmetries` AND `at large distances`: the general (r >= 0.05 R) formulas
+            # lose digits like (D/R)^5 / (r/R)^2 (measured on the unchanged tree, thin cylinder d=0.12 h=0.54:
+            # 2e-6 at D/R = 87, 3e-3 at 260, 1.6 at 870 for r/R = 0.05; 1e-3 at 870 for r/R = 1.5)
+            R = case["params"]["dimension"][0] / 2
+            rr = max(math.hypot(o[0], o[1]) / R, 0.05)
+            tol += 0.3 * EPS * (np.linalg.norm(o) / R) ** 5 / rr ** 2
     if c in ("Triangle", "Tetrahedron", "TriangularMesh"):
         th = edge_angle(case, o)
         # both documented losses multiply for an observer far away AND close to an edge extension
